@@ -282,11 +282,15 @@ pub fn main(_args: &[String]) {
     std::panic::set_hook(Box::new(|_| {}));
     let stdin = std::io::stdin();
     let mut line = String::new();
+    util::DEADLINE_SECS.store(120, std::sync::atomic::Ordering::SeqCst);     // watchdog: a case takes a few seconds at most
+    let mut hung = 0;
     while { line.clear(); stdin.read_line(&mut line).unwrap() > 0 } {
         let l = line.trim().to_string();
         if l.is_empty() { continue; }
         let id = l.split_whitespace().next().unwrap().to_string();
+        if hung >= 2 { util::emit(&format!("{id} CHILD skipped:earlier-cases-hung\n")); continue; }
         let (st, o) = util::fork_run(|| one(&l));
+        if st == "signal:14" { hung += 1; }
         util::emit(&o);
         util::emit(&format!("{id} CHILD {st}\n"));
     }
